@@ -783,9 +783,27 @@ fn extension_mutants(rng: &mut Rng, s: &Specimen, out: &mut Vec<Mutant>) {
 fn splice_mutants(rng: &mut Rng, a: &Specimen, b: &Specimen, out: &mut Vec<Mutant>) {
     let (na, nb) = (a.bytes.len(), b.bytes.len());
     let mut push = |bytes: Vec<u8>, detail: String| {
-        if bytes != a.bytes && bytes != b.bytes {
-            out.push(Mutant { class: "splice", region: "splice", bytes, detail });
+        if bytes == a.bytes || bytes == b.bytes {
+            return;
         }
+        // if the result differs from one of the two genuine packets in a single region only,
+        // name that region (it is then the same forgery as a mutation of that region)
+        let mut region = "splice";
+        for base in [a, b] {
+            if base.bytes.len() == bytes.len() {
+                let mut regions = BTreeSet::new();
+                for (i, (x, y)) in base.bytes.iter().zip(&bytes).enumerate() {
+                    if x != y {
+                        regions.insert(base.region(i));
+                    }
+                }
+                if regions.len() == 1 {
+                    region = regions.into_iter().next().unwrap_or("splice");
+                    break;
+                }
+            }
+        }
+        out.push(Mutant { class: "splice", region, bytes, detail });
     };
     // header of a + payload/tag of b
     let mut v = a.bytes[..a.header_len].to_vec();
@@ -816,6 +834,21 @@ fn splice_mutants(rng: &mut Rng, a: &Specimen, b: &Specimen, out: &mut Vec<Mutan
 struct Stats<'a> {
     sum: &'a mut Summary,
     positions: BTreeMap<Kind, BTreeSet<usize>>,
+    per_sig: BTreeMap<String, u64>,
+}
+
+impl Stats<'_> {
+    /// keep at most two witnesses per signature so that a known finding that recurs in every
+    /// iteration cannot crowd a new one out of the (capped) violation list
+    fn violation(&mut self, v: Violation) {
+        let n = self.per_sig.entry(v.signature.clone()).or_insert(0);
+        *n += 1;
+        if *n <= 2 {
+            self.sum.violation(v);
+        } else {
+            self.sum.count("violations_deduplicated", 1);
+        }
+    }
 }
 
 fn specimen_json(s: &Specimen, ctx: &KeyCtx) -> Value {
@@ -842,7 +875,7 @@ fn check_round_trip(st: &mut Stats, s: &Specimen, ctx: &KeyCtx, seed: u64, case:
                 }
                 if got != expect || consumed != s.bytes.len() {
                     let field = diff_field(&got, &expect);
-                    st.sum.violation(Violation {
+                    st.violation(Violation {
                         property: "C18".into(),
                         signature: format!("c18:round_trip_mismatch:{}:{}", s.kind.name(), field),
                         what: format!("decode(encode(p)) != p for a {} packet: field `{field}` differs (consumed {consumed} of {})", s.kind.name(), s.bytes.len()),
@@ -851,7 +884,7 @@ fn check_round_trip(st: &mut Stats, s: &Specimen, ctx: &KeyCtx, seed: u64, case:
                 }
             }
             Ok(other) => {
-                st.sum.violation(Violation {
+                st.violation(Violation {
                     property: "C18".into(),
                     signature: format!("c18:genuine_rejected:{}:{}", s.kind.name(), opened_class(&other)),
                     what: format!("a freshly encoded {} packet does not open with the matching keys: {other:?}", s.kind.name()),
@@ -859,7 +892,7 @@ fn check_round_trip(st: &mut Stats, s: &Specimen, ctx: &KeyCtx, seed: u64, case:
                 });
             }
             Err(msg) => {
-                st.sum.violation(Violation {
+                st.violation(Violation {
                     property: "C18".into(),
                     signature: format!("c18:panic:open:{}:{}", s.kind.name(), known::panic_sig(&msg)),
                     what: format!("panic while opening a valid {} packet: {msg}", s.kind.name()),
@@ -896,7 +929,7 @@ fn judge_mutant(st: &mut Stats, s: &Specimen, m: &Mutant, ctx: &KeyCtx, seed: u6
     let replay = || json!({"check":"c18","phase":"codec","seed":seed,"case":case,"specimen":specimen_json(s, ctx),
         "mutant": {"class": m.class, "region": m.region, "detail": m.detail, "bytes": m.bytes}});
     match res {
-        Err(msg) => st.sum.violation(Violation {
+        Err(msg) => st.violation(Violation {
             property: "C18".into(),
             signature: format!("c18:panic:open_mutant:{}:{}", s.kind.name(), known::panic_sig(&msg)),
             what: format!("panic while decoding/opening a mutated {} packet ({} {}): {msg}", s.kind.name(), m.class, m.detail),
@@ -910,7 +943,7 @@ fn judge_mutant(st: &mut Stats, s: &Specimen, m: &Mutant, ctx: &KeyCtx, seed: u6
                 return;
             }
             let _ = fields;
-            st.sum.violation(Violation {
+            st.violation(Violation {
                 property: "C18".into(),
                 signature: format!("c18:tamper_accepted:{}:{}", s.kind.name(), m.region),
                 what: format!(
@@ -950,13 +983,13 @@ fn totality(st: &mut Stats, rng: &mut Rng, seed: u64, case: u64, ctx: &KeyCtx) {
         }
         st.sum.count("a_random_inputs", 1);
         match open_caught(&b, ctx, rng.chance(1, 2)) {
-            Err(msg) => st.sum.violation(Violation {
+            Err(msg) => st.violation(Violation {
                 property: "C18".into(),
                 signature: format!("c18:panic:random_bytes:{}", known::panic_sig(&msg)),
                 what: format!("decoder/opener panicked on arbitrary bytes: {msg}"),
                 replay: json!({"check":"c18","phase":"random","seed":seed,"case":case,"suite":ctx.suite.name(),"secret":ctx.secret.to_vec(),"ups_token":ctx.ups_token.to_vec(),"bytes":b}),
             }),
-            Ok(Opened::Ok { .. }) => st.sum.violation(Violation {
+            Ok(Opened::Ok { .. }) => st.violation(Violation {
                 property: "C18".into(),
                 signature: "c18:random_bytes_accepted".into(),
                 what: "random bytes authenticated under the path secret".into(),
@@ -991,7 +1024,7 @@ fn codec_case(st: &mut Stats, seed: u64, case: u64, full_limit: usize) {
             Ok(s) => s,
             Err(p) => {
                 let msg = known::panic_text(p);
-                st.sum.violation(Violation {
+                st.violation(Violation {
                     property: "C18".into(),
                     signature: format!("c18:panic:encode:{}:{}", kind.name(), known::panic_sig(&msg)),
                     what: format!("encoder panicked for a {} packet: {msg}", kind.name()),
@@ -1008,7 +1041,7 @@ fn codec_case(st: &mut Stats, seed: u64, case: u64, full_limit: usize) {
         // the same bytes under another path secret's keys: the credential id differs
         match open_caught(&s.bytes, &ctx2, false) {
             Ok(Opened::UnknownCredentials) => st.sum.count("b1_other_secret_unknown_credentials", 1),
-            Ok(o) => st.sum.violation(Violation {
+            Ok(o) => st.violation(Violation {
                 property: "C18".into(),
                 signature: format!("c18:other_secret:{}:{}", s.kind.name(), opened_class(&o)),
                 what: format!("a {} packet for one path secret was not classified as unknown credentials by a receiver holding another: {o:?}", s.kind.name()),
@@ -1080,6 +1113,8 @@ pub struct Victim {
     pub state: MapState,
     pub has_entry: bool,
     last_key_id: Option<u64>,
+    /// the sender counter was driven to its end (sealing panics from now on)
+    pub poisoned: bool,
 }
 
 #[derive(Debug, Clone, PartialEq, Eq)]
@@ -1139,7 +1174,7 @@ impl Victim {
         }
         rec.take();
         let from = if state == MapState::OtherPeer { other } else { peer };
-        Victim { map, rec, cb_count, peer, from, state, has_entry, last_key_id: None }
+        Victim { map, rec, cb_count, peer, from, state, has_entry, last_key_id: None, poisoned: false }
     }
 
     pub fn snapshot(&self) -> Snapshot {
@@ -1153,10 +1188,22 @@ impl Victim {
 
     /// key id in the credentials of the next seal for the target path secret
     pub fn probe_key_id(&mut self, id: Id) -> Option<u64> {
-        let (_, c, _) = self.map.seal_once_id(id)?;
+        if self.poisoned {
+            return None;
+        }
+        // `next_key_id()` panics by design once the counter reaches 2^62-1; a forged StaleKey
+        // that got applied can push it there, so the probe itself must not take the harness down
+        let map = self.map.clone();
+        let r = catch_unwind(AssertUnwindSafe(move || map.seal_once_id(id).map(|(_, c, _)| *c.key_id)));
         // the probe itself emits cache-access events: not part of any delivery
         self.rec.take();
-        Some(*c.key_id)
+        match r {
+            Ok(k) => k,
+            Err(_) => {
+                self.poisoned = true;
+                Some(u64::MAX)
+            }
+        }
     }
 
     /// deliver raw bytes through one of the three public entry points
@@ -1217,7 +1264,7 @@ fn deliver_and_check(st: &mut Stats, v: &mut Victim, s: &Specimen, ctx: &KeyCtx,
         Ok(n) => n,
         Err(p) => {
             let msg = known::panic_text(p);
-            st.sum.violation(Violation {
+            st.violation(Violation {
                 property: "C18".into(),
                 signature: format!("c18:panic:map:{}:{}", s.kind.name(), known::panic_sig(&msg)),
                 what: format!("the map panicked on a mutated {} packet: {msg}", s.kind.name()),
@@ -1252,7 +1299,7 @@ fn deliver_and_check(st: &mut Stats, v: &mut Victim, s: &Specimen, ctx: &KeyCtx,
         } else {
             "accepted_event"
         };
-        st.sum.violation(Violation {
+        st.violation(Violation {
             property: "C18".into(),
             signature: format!("c18:forged_control_acted_on:{}:{}:{}", s.kind.name(), m.region, effect),
             what: format!(
@@ -1286,7 +1333,7 @@ fn positive_control(st: &mut Stats, v: &mut Victim, s: &Specimen, ctx: &KeyCtx, 
         let _ = v.deliver(&s.bytes, api);
         let ev = v.rec.take();
         if ev.iter().any(|e| e.0.ends_with("_accepted")) {
-            st.sum.violation(Violation {
+            st.violation(Violation {
                 property: "C18".into(),
                 signature: format!("c18:accepted_without_entry:{}", s.kind.name()),
                 what: "a secret-control packet was accepted by a map that holds no entry for its credential id".into(),
@@ -1387,6 +1434,9 @@ fn map_case(st: &mut Stats, seed: u64, case: u64) {
             // packet; only the datagram entry point sees the whole buffer.
             let api = if m.class == "extend" { 2 } else { (i as u64 + case) as u8 };
             deliver_and_check(st, &mut v, &s, &ctx, m, api, evict, seed, case);
+            if v.poisoned {
+                return;
+            }
         }
         positive_control(st, &mut v, &s, &ctx, (case % 3) as u8, evict, seed, case);
     }
@@ -1456,20 +1506,20 @@ fn data_case(st: &mut Stats, seed: u64, case: u64) {
             match r {
                 Err(p) => {
                     let msg = known::panic_text(p);
-                    st.sum.violation(Violation {
+                    st.violation(Violation {
                         property: "C18".into(),
                         signature: format!("c18:panic:map_open:{}:{}", kind.name(), known::panic_sig(&msg)),
                         what: format!("panic while opening a mutated {} packet with keys from the map: {msg}", kind.name()),
                         replay: json!({"check":"c18","phase":"data","seed":seed,"case":case,"specimen":specimen_json(&s,&ctx),"mutant":{"class":m.class,"region":m.region,"detail":m.detail,"bytes":m.bytes}}),
                     });
                 }
-                Ok(Ok(())) => st.sum.violation(Violation {
+                Ok(Ok(())) => st.violation(Violation {
                     property: "C18".into(),
                     signature: format!("c18:tamper_accepted_via_map:{}:{}", kind.name(), m.region),
                     what: format!("a {} packet modified by `{}` ({}) decrypted with keys from the map", kind.name(), m.class, m.detail),
                     replay: json!({"check":"c18","phase":"data","seed":seed,"case":case,"specimen":specimen_json(&s,&ctx),"mutant":{"class":m.class,"region":m.region,"detail":m.detail,"bytes":m.bytes}}),
                 }),
-                Ok(Err(_)) if !touched.is_empty() => st.sum.violation(Violation {
+                Ok(Err(_)) if !touched.is_empty() => st.violation(Violation {
                     property: "C18".into(),
                     signature: format!("c18:replay_state_touched:{}:{}", kind.name(), m.region),
                     what: format!("a rejected mutated {} packet still produced replay-window events {touched:?}", kind.name()),
@@ -1493,7 +1543,7 @@ fn data_case(st: &mut Stats, seed: u64, case: u64) {
             st.sum.inconclusive.push(format!("c18: data positive control failed: genuine {} not accepted through the map: {first:?} events {:?} (seed {seed} case {case})", kind.name(), ev1.iter().map(|e| e.0).collect::<Vec<_>>()));
         }
         if second.is_ok() {
-            st.sum.violation(Violation {
+            st.violation(Violation {
                 property: "C18".into(),
                 signature: format!("c18:replayed_data_packet_accepted:{}", kind.name()),
                 what: format!("the same {} packet was accepted twice through the map", kind.name()),
@@ -1574,7 +1624,7 @@ pub fn run(args: &BTreeMap<String, String>, sum: &mut Summary) {
     let evict_control = vq_util::arg_u64(args, "evict-control", 1) == 1 && (phase == "all" || phase == "map");
     let full_limit = vq_util::arg_u64(args, "full-sweep-limit", 1200) as usize;
     let aged = if evict_control { Some(aged_setup(seed)) } else { None };
-    let mut st = Stats { sum, positions: BTreeMap::new() };
+    let mut st = Stats { sum, positions: BTreeMap::new(), per_sig: BTreeMap::new() };
     for case in 0..iters {
         if phase == "all" || phase == "codec" {
             codec_case(&mut st, seed, case, full_limit);
@@ -1666,7 +1716,7 @@ pub fn replay(r: &Value, sum: &mut Summary) {
                 if v.has_entry {
                     v.last_key_id = v.probe_key_id(ctx.id);
                 }
-                let mut st = Stats { sum, positions: BTreeMap::new() };
+                let mut st = Stats { sum, positions: BTreeMap::new(), per_sig: BTreeMap::new() };
                 let acted = deliver_and_check(&mut st, &mut v, &spec, &ctx, &m, r["api"].as_u64().unwrap_or(0) as u8, evict, 0, 0);
                 eprintln!("[c18 replay] map state {} acted={acted}", state.name());
             } else {
